@@ -31,7 +31,7 @@ META = {
             "with digits) are outside the statement and reported as notes, not violations. Random inputs are sampled from VERIF_SEED; "
             "the byte-pair sweep is exhaustive in the thorough tier.",
     "bins": ["c14"],
-    "modules": ["MC_Content.tla", "Gen_Content.tla", "Trace_Content.tla"],
+    "modules": ["MC_Content.tla", "Gen_Content.tla", "Trace_Content.tla", "MC_ContentHist.tla"],
     "design_ref": "DESIGN.md section 4 C14",
 }
 
@@ -71,6 +71,25 @@ def is_mask_op(op):
     if not is_inline_op(op):
         return False
     return any(bytes(p[0]) in (b"IM", b"ImageMask") and p[1].get("k") == "bool" and p[1].get("v") is True for p in op["args"][0]["v"])
+
+
+def name_needs_escape(b):
+    """a name that cannot be written raw: white-space, delimiter, '#', or a byte outside 33..126 (7.3.5)"""
+    return len(b) == 0 or any(c in b" \t\r\n\x00\x0c()<>[]{}/%#" or not (33 <= c <= 126) for c in b)
+
+
+def inline_key_classes(ops):
+    """which classes of dictionary keys the inline images of an operation list carry (computed from the case)"""
+    out = set()
+    for op in ops:
+        if is_inline_op(op):
+            for p in op["args"][0]["v"]:
+                k = bytes(p[0])
+                if k != b"Length" and name_needs_escape(k):
+                    out.add("hostile-key")
+                if p[1].get("k") == "name" and name_needs_escape(bytes(p[1]["v"])):
+                    out.add("hostile-name-value")
+    return sorted(out)
 
 
 def ops_in_domain(ops):
@@ -136,6 +155,8 @@ class Eval:
         self.opt_keys_tried = collections.Counter()
         self.masks_tried = 0
         self.first_keys = set()
+        self.inline_key_classes = collections.Counter()
+        self.history = collections.Counter()
 
     def note(self, key, sample):
         self.notes[key] += 1
@@ -172,12 +193,18 @@ class Eval:
         if inline:
             # clause 2: decode -> encode -> decode.  (A content stream with an inline image is valid input;
             # whether its other operators are in the alphabet does not matter for this signature.)
+            kc = inline_key_classes(ops)
+            if cls.startswith("api."):
+                for c in kc:
+                    self.inline_key_classes["api:" + c] += 1
             if ok:
                 chk.traces += 1
             elif probe:
                 self.note(cls + ":reencode", detail)
             else:
-                chk.violation("C14:inline.reencode", detail)
+                # the classifier of the repaired finding (any inline image) is gone; the signature names the class of
+                # dictionary keys / name values the failing image carries
+                chk.violation("C14:inline.reencode" + ("[" + "+".join(kc) + "]" if kc else ""), detail)
             return
         if not indom or probe:
             self.note((cls if probe else "out-of-domain") + ":" + ("ok" if ok else dec_v["rt"]), detail)
@@ -246,6 +273,8 @@ class Eval:
             if k in OPT_KEYS:
                 self.opt_keys_tried[k.decode()] += 1
         self.first_keys.add(tuple(keys))
+        if any(name_needs_escape(k) for k in keys):
+            self.inline_key_classes[("producer" if producer else "harness") + ":hostile-key"] += 1
         chk.case(json.dumps(given["bytes"]))
         if ok:
             return
@@ -295,6 +324,76 @@ def evaluate(ev, recs, verdicts, origin):
                 i += 1
             continue
         raise vlib.ToolError("unexpected event order at record %d: %s" % (i, r["ev"]))
+
+
+def evaluate_history(ev, recs, verdicts):
+    """ContentHist schedules: Reset, judged cases (fresh), Disturb*, the same judged cases (after).  Every judged call is
+    an ordinary case of the property (evaluate -> roundtrip); on top of that the results after the disturbances must be
+    the results before them: encode / decode are functions of their argument alone."""
+    chk = ev.chk
+    i, n = 0, len(recs)
+    while i < n:
+        if recs[i]["ev"] != "Reset":
+            raise vlib.ToolError("history trace does not start a schedule with Reset at %d" % i)
+        j = i + 1
+        while j < n and recs[j]["ev"] != "Reset":
+            j += 1
+        reset = recs[i]
+        jt = reset["t"]
+        seg, segv = recs[i + 1:j], verdicts[i + 1:j]
+        dist = [r for r in seg if r["ev"] == "Disturb"]
+        same = sorted({d["kind"] for d in dist if d["t"] == jt})
+        other = sorted({d["kind"] for d in dist if d["t"] != jt})
+        label = "+".join(same) if same else ("other-thread:" + "+".join(other) if other else "none")
+        for d in dist:
+            ev.history[("disturb", d["kind"], "same-thread" if d["t"] == jt else "other-thread")] += 1
+            if d["panic"]:
+                ev.note("history:disturbance-panicked:" + d["kind"], {"class": "history", "verdict": d})
+        fresh = [(r, v) for r, v in zip(seg, segv) if r.get("cls") == "history.fresh"]
+        after = [(r, v) for r, v in zip(seg, segv) if r.get("cls") == "history.after"]
+        # each judged call on its own (fresh ones are plain cases; a failing "after" call gets the history signature)
+        fr, fv = [x[0] for x in fresh], [x[1] for x in fresh]
+        evaluate(ev, fr, fv, "history-fresh")
+        fresh_ok = {}
+        k = 0
+        while k < len(fresh):
+            r, v = fresh[k]
+            if r["ev"] == "Encode" and k + 1 < len(fresh) and fresh[k + 1][0]["ev"] == "Decode":
+                fresh_ok[r["case"]] = (fresh[k + 1][1]["rt"].startswith("ok"), r, fresh[k + 1][0])
+                k += 2
+            else:
+                fresh_ok[r["case"]] = (False, r, None)
+                k += 1
+        k = 0
+        while k < len(after):
+            r, v = after[k]
+            d, dv = (after[k + 1] if k + 1 < len(after) and after[k + 1][0]["ev"] == "Decode" and r["ev"] == "Encode" else (None, None))
+            k += 2 if d is not None else 1
+            if r["ev"] != "Encode":
+                raise vlib.ToolError("history trace: unexpected event order in schedule %s" % reset["sched"])
+            f_ok, f_enc, f_dec = fresh_ok.get(r["case"], (False, None, None))
+            chk.case(json.dumps([reset["hist"], r.get("bytes")]))
+            ev.history[("judged", "d=%d" % reset["d"], label.split(":")[0] if same else ("other-thread" if other else "none"))] += 1
+            if not ops_in_domain(r["ops"]) and not any(is_inline_op(o) for o in r["ops"]):
+                continue
+            detail = {"class": "history", "schedule": reset["hist"], "judging_thread": jt, "disturbances": dist,
+                      "ops": r["ops"], "bytes_ascii": bytes(r.get("bytes", [])).decode("latin-1")[:300],
+                      "fresh": {"encode": f_enc["res"] if f_enc else None, "decode": f_dec["res"] if f_dec else None},
+                      "after": {"encode": r["res"], "decode": d["res"] if d else None, "decoded": d["ops"] if d else None,
+                                "strict_reading_of_bytes": v["d"], "roundtrip": dv["rd"] if dv else None}}
+            a_ok = d is not None and r["res"] == "ok" and dv["rt"].startswith("ok")
+            differs = (f_enc is None or f_enc["res"] != r["res"] or f_enc.get("bytes") != r.get("bytes")
+                       or (f_dec is None) != (d is None) or (d is not None and (f_dec["res"] != d["res"] or f_dec["ops"] != d["ops"])))
+            if not f_ok:
+                continue        # the fresh call already failed: reported by evaluate() above under its own signature
+            if not a_ok:
+                what = "encode-failed" if r["res"] != "ok" else dv["rt"]
+                chk.violation("C14:history.%s.%s" % (label, what), detail)
+            elif differs:
+                chk.violation("C14:history.%s.result-differs" % label, detail)
+            else:
+                chk.traces += 1
+        i = j
 
 
 # ------------------------------------------------------------------ negative controls (synthetic, independent of the tree)
@@ -393,24 +492,37 @@ def run(tier):
     vlib.build_harness("c14")       # once, before the worker threads below call run_bin concurrently
 
     # ---- (M) Producer vs StrictReader in content mode, exhaustive over the test universes
-    cfgs = ["MC_Content_adj.cfg", "MC_Content_seq2s.cfg", "MC_Content_inlq.cfg", "MC_Content_inloq.cfg"] if quick else [
+    cfgs = ["MC_Content_adj.cfg", "MC_Content_seq2s.cfg", "MC_Content_inlq.cfg", "MC_Content_inloq.cfg", "MC_Content_inlk.cfg"] if quick else [
         "MC_Content_adj.cfg", "MC_Content_adj_all.cfg", "MC_Content_adjc.cfg", "MC_Content_adj2.cfg", "MC_Content_strs.cfg",
         "MC_Content_seq2.cfg", "MC_Content_seq3.cfg", "MC_Content_inlq.cfg", "MC_Content_inloq.cfg", "MC_Content_inlot.cfg",
-        "MC_Content_inlt.cfg"]
-    with ThreadPoolExecutor(max_workers=4 if quick else 2) as ex:
+        "MC_Content_inlk.cfg", "MC_Content_inlt.cfg"]
+    with ThreadPoolExecutor(max_workers=5 if quick else 2) as ex:
         for r in ex.map(lambda c: mc(c, tier), cfgs):
             chk.add_tlc(r)
     chk.extra["mc_universes"] = [c[len("MC_Content_"):-4] for c in cfgs]
     chk.exhaustive = True
+    # history independence (ContentHist): every history of <= 2 disturbances x 8 kinds x 2 threads before a judged call;
+    # the impl-shaped layer as the code is must be functional, and with the deviation switch (error path keeps the level)
+    # TLC must find the counter-example -- otherwise the model could not see the class at all
+    rh = tlc("MC_ContentHist.tla", "MC_ContentHist_asis.cfg", workers=2, coverage=True, timeout=600, name="c14-hist-asis")
+    vlib.require_coverage(rh, ["Disturb", "Judge"])
+    chk.add_tlc(rh)
+    schedules = rh.tagged("REPLAY")
+    rl = tlc("MC_ContentHist.tla", "MC_ContentHist_leak.cfg", workers=1, timeout=600, name="c14-hist-leak", allow_violation=True)
+    if rl.violation != "Functional":
+        raise vlib.ToolError("ContentHist with Leak = TRUE does not violate Functional: the model cannot see history dependence")
+    if len(schedules) < 100:
+        raise vlib.ToolError("ContentHist generated only %d schedules" % len(schedules))
 
     def gen():
         # ---- (G) content spelled by the Producer, for lopdf to decode
         cases_in = os.path.join(w, "cases.ndjson")
         run_bin("c14", ["cases", "--seed", sd, "--n", 40 if quick else 300, "--out", cases_in])
         jobs = [("Gen_Content.tla", "Gen_Content.cfg", 150 if quick else 1500, "c14-gen-file", {"CASES": cases_in}),
-                ("MC_Content.tla", "MC_Content_gen_mix.cfg", 250 if quick else 3000, "c14-gen-mix", None),
+                ("MC_Content.tla", "MC_Content_gen_mixops.cfg", 150 if quick else 1500, "c14-gen-mixops", None),
+                ("MC_Content.tla", "MC_Content_gen_mixinl.cfg", 200 if quick else 2500, "c14-gen-mixinl", None),
                 ("Gen_Content.tla", "Gen_Content_all.cfg", 40 if quick else 400, "c14-gen-file-all", {"CASES": cases_in})]
-        with ThreadPoolExecutor(max_workers=3) as ex:
+        with ThreadPoolExecutor(max_workers=4) as ex:
             return list(ex.map(lambda j: simulate(j[0], j[1], j[2], j[3], j[4]), jobs))
 
     def cov():
@@ -425,11 +537,31 @@ def run(tier):
         run_bin("c14", ["record", "--seed", sd, "--n", 250 if quick else 4000, "--rows", "critical" if quick else "all", "--out", tr])
         ti = os.path.join(w, "inline.ndjson")
         run_bin("c14", ["inline", "--seed", sd, "--n", 40 if quick else 1500, "--out", ti])
-        return read_ndjson(tr), read_ndjson(ti)
+        # history schedules: all of them in the thorough tier, a seeded sample (every kind on the judging thread at least
+        # twice, by construction of the sample) in the quick tier
+        import random
+        rnd = random.Random(sd)
+        sch = list(schedules)
+        rnd.shuffle(sch)
+        if quick:
+            decisive = [x for x in sch if x["hist"][-1]["d"] >= 1 and any(h["a"] == "disturb" and h["t"] == x["hist"][-1]["t"] for h in x["hist"])]
+            picked, seen = [], collections.Counter()
+            for x in decisive:
+                ks = {h["kind"] for h in x["hist"] if h["a"] == "disturb" and h["t"] == x["hist"][-1]["t"]}
+                if any(seen[k] < 6 for k in ks):
+                    picked.append(x)
+                    for k in ks:
+                        seen[k] += 1
+            rest = [x for x in sch if x not in picked][:120]
+            sch = picked + rest
+        sin, th = os.path.join(w, "schedules.ndjson"), os.path.join(w, "history.ndjson")
+        write_ndjson(sin, sch)
+        run_bin("c14", ["history", "--seed", sd, "--in", sin, "--out", th, "--reps", 64])
+        return read_ndjson(tr), read_ndjson(ti), read_ndjson(th)
 
     with ThreadPoolExecutor(max_workers=3) as ex:
         f_gen, f_cov, f_rec = ex.submit(gen), ex.submit(cov), ex.submit(rec)
-        gens, _, (recs_v, recs_i) = f_gen.result(), f_cov.result(), f_rec.result()
+        gens, _, (recs_v, recs_i, recs_h) = f_gen.result(), f_cov.result(), f_rec.result()
 
     produced = []
     for r, cases in gens:
@@ -446,41 +578,70 @@ def run(tier):
     ev = Eval(chk)
     chunks = 1 if quick else 12
     jobs = [("c14-v", recs_v, "lopdf"), ("c14-i", recs_i, "harness-inline"), ("c14-p", recs_p, "tla-producer")]
-    with ThreadPoolExecutor(max_workers=3) as ex:
+    resets = [i for i, r in enumerate(recs_h) if r["ev"] == "Reset"]
+    with ThreadPoolExecutor(max_workers=4) as ex:
+        f_h = ex.submit(judge, recs_h, "c14-h", chunks, resets)
         judged = list(ex.map(lambda j: judge(j[1], j[0], chunks, case_starts(j[1])), jobs))
+        vs_h, st_h, tr_h = f_h.result()
     for (name, recs, origin), (vs, st, tr) in zip(jobs, judged):
         chk.states += st
         chk.transitions += tr
         evaluate(ev, recs, vs, origin)
+    chk.states += st_h
+    chk.transitions += tr_h
+    evaluate_history(ev, recs_h, vs_h)
 
-    # ---- (B) anti-vacuity of the recorded / generated sets, computed from the inputs
+    # ---- (B) anti-vacuity of the recorded / generated sets, computed from the inputs.  A vacuity problem never masks
+    # a violation: with violations present the run still ends with exit 1 and lists the problems.
+    vac = []
     need_kinds = ["null", "bool", "int", "real", "name", "str", "arr", "dict"]
     missing = [k for k in need_kinds if ev.kinds_seen[k] == 0]
     if missing:
-        raise vlib.ToolError("vacuous: no operand of kind %s in any recorded operation" % missing)
+        vac.append("no operand of kind %s in any recorded operation" % missing)
     nsweep = sum(1 for r in recs_v if r["ev"] == "Encode" and r["cls"].startswith(("sweep.str.", "sweep.name.")))
     if not quick and nsweep != 512:
-        raise vlib.ToolError("byte-pair sweep incomplete: %d of 512 rows" % nsweep)
+        vac.append("byte-pair sweep incomplete: %d of 512 rows" % nsweep)
     if nsweep < 40:
-        raise vlib.ToolError("vacuous: only %d sweep rows" % nsweep)
+        vac.append("only %d sweep rows" % nsweep)
     want_combos = {(cs, b) for cs in (b"G", b"DeviceGray", b"RGB", b"DeviceRGB", b"CMYK", b"DeviceCMYK") for b in (1, 2, 4, 8)}
     if not want_combos <= ev.inline_combos:
-        raise vlib.ToolError("vacuous: inline colour space x BPC combinations never tried: %s" % sorted(want_combos - ev.inline_combos))
+        vac.append("inline colour space x BPC combinations never tried: %s" % sorted(want_combos - ev.inline_combos))
     missing = [k for k in ("IM", "ImageMask", "I", "Interpolate", "D", "Decode") if ev.opt_keys_tried[k] == 0]
     if missing:
-        raise vlib.ToolError("vacuous: no in-domain inline image spells out the optional entry %s" % missing)
+        vac.append("no in-domain inline image spells out the optional entry %s" % missing)
     if ev.masks_tried == 0:
-        raise vlib.ToolError("vacuous: no stencil mask (ImageMask true) tried")
+        vac.append("no stencil mask (ImageMask true) tried")
     if len(ev.first_keys) < 12:
-        raise vlib.ToolError("vacuous: only %d distinct inline-image entry sets" % len(ev.first_keys))
+        vac.append("only %d distinct inline-image entry sets" % len(ev.first_keys))
+    for k in ("api:hostile-key", "api:hostile-name-value", "harness:hostile-key", "producer:hostile-key"):
+        if ev.inline_key_classes[k] < 5:
+            vac.append("only %d inline images of class %s" % (ev.inline_key_classes[k], k))
+    kinds_same = {k[1] for k in ev.history if k[0] == "disturb" and k[2] == "same-thread"}
+    want_kinds = {"trunc-array", "trunc-dict", "trunc-string", "too-deep", "unbalanced", "bad-token", "inline-trunc", "load-damaged"}
+    if want_kinds - kinds_same:
+        vac.append("disturbance kinds never run on the judging thread: %s" % sorted(want_kinds - kinds_same))
+    if sum(n for k, n in ev.history.items() if k[0] == "judged" and k[1] != "d=0" and k[2] not in ("none", "other-thread")) < 50:
+        vac.append("fewer than 50 judged calls with container operands after a disturbance on their own thread")
+    if not any(k[0] == "judged" and k[2] == "other-thread" for k in ev.history):
+        vac.append("no judged call after a disturbance on the other thread only")
     chk.extra["inline_optional_entries_tried"] = dict(ev.opt_keys_tried)
     chk.extra["inline_entry_key_sets"] = len(ev.first_keys)
     chk.extra["stencil_masks_tried"] = ev.masks_tried
+    chk.extra["inline_hostile_key_images"] = dict(ev.inline_key_classes)
+    chk.extra["history_schedules"] = len(resets)
+    chk.extra["history_calls"] = {"/".join(k): n for k, n in sorted(ev.history.items())}
     us = collections.Counter(c.get("u") for c in produced)
-    if us["file"] == 0 or us["mix"] == 0 or not any(c.get("inline") for c in produced):
-        raise vlib.ToolError("vacuous: Producer universes missing: %s" % dict(us))
+    if us["file"] == 0 or us["mixops"] == 0 or us["mixinl"] == 0 or not any(c.get("inline") for c in produced):
+        vac.append("Producer universes missing: %s" % dict(us))
     if not any(bytes(n) == b"d0" for c in produced for n in c.get("opnames", [])):
-        raise vlib.ToolError("vacuous: no generated content with an operator ending in a digit")
+        vac.append("no generated content with an operator ending in a digit")
+    if vac:
+        if chk.violations:
+            for m in vac:
+                log("VACUITY (not masking the violations): " + m)
+            chk.extra["vacuity_problems"] = vac
+        else:
+            raise vlib.ToolError("vacuous: " + "; ".join(vac))
     chk.extra["sweep_rows"] = nsweep
     chk.extra["byte_pairs_swept"] = nsweep * 256
     chk.extra["producer_cases"] = dict(us)
@@ -500,5 +661,9 @@ def run(tier):
         if c.get("u") == "file" and c.get("nops", 0) >= 2:
             chk.sample({"class": "tla-producer spelling of seeded operations", "content_ascii": bytes(c["bytes"]).decode("latin-1")[:300]}, cap=4)
             break
+    bysig = collections.Counter()
+    for sig, det in list(chk.violations) + [(k, d) for k, ds in chk.known_seen.items() for d in ds]:
+        bysig["%s | %s" % (sig, det.get("origin") or det.get("class"))] += 1
+    chk.extra["violations_by_signature_and_origin"] = dict(bysig)
     chk.extra["negative_controls_rejected"] = negative_controls()
     return chk.finish()
